@@ -286,7 +286,12 @@ fn ord_name(o: Option<std::cmp::Ordering>) -> &'static str {
 fn row<T: Trace + PartialOrd + PartialEq + std::fmt::Debug + Clone + 'static>(a: &T, b: &T) -> (Value, Value) {
     let (ca, cb) = (Cc::new(a.clone()), Cc::new(b.clone()));
     let plain = json!({"eq": a == b, "ne": a != b, "lt": a < b, "le": a <= b, "gt": a > b, "ge": a >= b, "pcmp": ord_name(a.partial_cmp(b)), "dbg": format!("{:?}", a)});
-    let viacc = json!({"eq": ca == cb, "ne": ca != cb, "lt": ca < cb, "le": ca <= cb, "gt": ca > cb, "ge": ca >= cb, "pcmp": ord_name(ca.partial_cmp(&cb)), "dbg": format!("{:?}", ca)});
+    let mut viacc = json!({"eq": ca == cb, "ne": ca != cb, "lt": ca < cb, "le": ca <= cb, "gt": ca > cb, "ge": ca >= cb, "pcmp": ord_name(ca.partial_cmp(&cb)), "dbg": format!("{:?}", ca)});
+    // two handles to the SAME allocation must also compare exactly like the value with itself
+    let c2 = ca.clone();
+    let same = json!({"eq": ca == c2, "ne": ca != c2, "lt": ca < c2, "le": ca <= c2, "gt": ca > c2, "ge": ca >= c2, "pcmp": ord_name(ca.partial_cmp(&c2))});
+    let plain_self = json!({"eq": a == a, "ne": a != a, "lt": a < a, "le": a <= a, "gt": a > a, "ge": a >= a, "pcmp": ord_name(a.partial_cmp(a))});
+    viacc["same_alloc_ok"] = json!(same == plain_self);
     (plain, viacc)
 }
 
@@ -311,6 +316,9 @@ pub fn ptr_tables(table: &[Value]) -> Value {
                         bad.push(json!({"type": name, "i": i + 1, "j": j + 1, "method": k, "cc": viacc[k], "plain": plain[k], "spec": exp[k]}));
                     }
                 }
+            }
+            if viacc["same_alloc_ok"] != true && bad.len() < 10 {
+                bad.push(json!({"type": name, "i": i + 1, "method": "comparison of two handles to the same allocation differs from comparing the value with itself"}));
             }
             if viacc["dbg"] != plain["dbg"] && bad.len() < 10 {
                 bad.push(json!({"type": name, "i": i + 1, "method": "Debug", "cc": viacc["dbg"], "plain": plain["dbg"]}));
@@ -366,4 +374,134 @@ pub fn ptr_tables(table: &[Value]) -> Value {
         }
     }
     json!({"rows": rows, "bad": bad})
+}
+
+// ------------------------------------------------------------------ policy grid (C15)
+
+macro_rules! blob_new {
+    ($n:expr, $($p:literal),*) => {
+        match $n {
+            $( $p => Box::new(Cc::new([0u64; $p])) as Box<dyn std::any::Any>, )*
+            _ => unreachable!(),
+        }
+    };
+}
+
+/// Allocates managed boxes whose sizes add up to exactly `bytes` (a multiple of 8, 0 or >= 48).
+/// A box holding `[u64; N]` takes 40 + 8 N bytes; N is a power of two.
+fn alloc_exact(bytes: usize, keep: &mut Vec<Box<dyn std::any::Any>>) -> bool {
+    if bytes == 0 {
+        return true;
+    }
+    let p = bytes / 8;
+    for c in 1..=64usize {
+        if p < 6 * c {
+            break;
+        }
+        let s = p - 5 * c; // sum of the N_i
+        if (s.count_ones() as usize) <= c && c <= s {
+            // split s into exactly c powers of two (each <= 2048)
+            let mut parts: Vec<usize> = (0..usize::BITS).filter(|b| s >> b & 1 == 1).map(|b| 1usize << b).collect();
+            while parts.len() < c {
+                parts.sort_unstable();
+                let big = parts.pop().unwrap();
+                if big == 1 {
+                    return false;
+                }
+                parts.push(big / 2);
+                parts.push(big / 2);
+            }
+            if parts.iter().any(|x| *x > 2048) {
+                continue;
+            }
+            for n in parts {
+                keep.push(blob_new!(n, 1, 2, 4, 8, 16, 32, 64, 128, 256, 512, 1024, 2048));
+            }
+            return true;
+        }
+    }
+    false
+}
+
+#[cfg(feature = "auto")]
+fn policy_row(r: &Value) -> Option<Value> {
+    use rust_cc::config::config;
+    let (thr, b, pn, pd, exp) = (r[0].as_u64()? as usize, r[1].as_u64()? as usize, r[2].as_u64()?, r[3].as_u64()?, r[4].as_u64()? as usize);
+    config(|c| {
+        c.set_auto_collect(false);
+        c.set_adjustment_percent(0.0);
+    })
+    .ok()?;
+    let mut keep: Vec<Box<dyn std::any::Any>> = Vec::new();
+    // ramp the threshold up to `thr`: with allocated bytes in [t, 2t) a collection doubles t once
+    let mut cur = rust_cc::verif_hooks::bytes_threshold()?;
+    while cur < thr {
+        keep.clear();
+        let want = (cur + 7) / 8 * 8 + if cur % 8 == 0 { 0 } else { 0 };
+        let want = want.max(48);
+        if !alloc_exact(want, &mut keep) || state::allocated_bytes().ok()? != want {
+            return Some(json!({"row": r, "problem": "harness could not reach the ramp size", "want": want}));
+        }
+        collect_cycles();
+        let now = rust_cc::verif_hooks::bytes_threshold()?;
+        if now != 2 * cur {
+            return Some(json!({"row": r, "problem": "ramp: threshold after a collection", "bytes": want, "before": cur, "after": now, "expected": 2 * cur}));
+        }
+        cur = now;
+    }
+    keep.clear();
+    if !alloc_exact(b, &mut keep) {
+        return Some(json!({"skip": true})); // not a sum of available box sizes
+    }
+    if state::allocated_bytes().ok()? != b {
+        return Some(json!({"row": r, "problem": "allocated_bytes differs from the boxes just created", "got": state::allocated_bytes().ok()}));
+    }
+    config(|c| c.set_adjustment_percent(pn as f64 / pd as f64)).ok()?;
+    collect_cycles();
+    let got = rust_cc::verif_hooks::bytes_threshold()?;
+    if got != exp {
+        return Some(json!({"row": r, "problem": "threshold after collect_cycles() differs from Config::adjust as specified", "got": got, "expected": exp}));
+    }
+    // trigger boundary: creating a Cc starts a collection iff allocated bytes exceed the threshold
+    if got % 8 == 0 && got >= b + 48 {
+        let x0 = state::executions_count().ok()?;
+        if alloc_exact(got - b, &mut keep) && state::allocated_bytes().ok()? == got {
+            config(|c| c.set_auto_collect(true)).ok()?;
+            let a = Cc::new([0u64; 1]); // bytes == threshold: no collection
+            let x1 = state::executions_count().ok()?;
+            let b2 = Cc::new([0u64; 1]); // bytes > threshold: collection
+            let x2 = state::executions_count().ok()?;
+            config(|c| c.set_auto_collect(false)).ok()?;
+            drop(a);
+            drop(b2);
+            if x1 != x0 || x2 != x1 + 1 {
+                return Some(json!({"row": r, "problem": "trigger boundary: collections started at bytes == threshold / bytes > threshold", "at_equal": x1 - x0, "above": x2 - x1}));
+            }
+        }
+    }
+    None
+}
+
+#[cfg(feature = "auto")]
+pub fn policy_grid(rows: &[Value]) -> Value {
+    let mut bad = Vec::new();
+    let mut n = 0u64;
+    let mut skipped = 0u64;
+    for r in rows {
+        let r2 = r.clone();
+        n += 1;
+        if let Some(b) = crate::on_fresh_thread(move || policy_row(&r2)) {
+            if b["skip"] == true {
+                skipped += 1;
+            } else if bad.len() < 12 {
+                bad.push(b);
+            }
+        }
+    }
+    json!({"rows": n, "skipped": skipped, "bad": bad})
+}
+
+#[cfg(not(feature = "auto"))]
+pub fn policy_grid(_rows: &[Value]) -> Value {
+    json!({"rows": 0, "bad": []})
 }
